@@ -221,9 +221,25 @@ PROPS["C10"] = {
     "assumptions": COMMON_ASSUME + ["'a small multiple of max_metadata_size plus a constant' is read as 4 x limit + 64 KiB for the peak heap and 2 x limit + 1088 for the returned metadata; 'a constant' for webpsan as 4 MiB (measured maxima: about 200 KiB)", "the 32-byte look-ahead is read as a count (32 bytes per top-level box visited, plus one final fill); positionally a fill that starts mid-header can reach up to 63 bytes into a box, which is what the media-inspection check allows", "bytes read by an operation that then fails are not part of the accounting theorem (they are part of the measured check)"],
 }
 
+PROPS["C09"] = {
+    "extract": [],
+    "rule": "cases = every base input (the C12/C13 corpora, remux files, every malformed-moov family, WebP container corpus, encoder ALPH streams, specification-synthesised lossless streams valid and with each rule broken) under: EVERY truncation point; one flipped bit / 0x00 / 0xff per byte; the 32-bit values {0, 1, 7, 2^31-1, 2^31, 2^32-9, 2^32-1} big- and little-endian at every aligned offset; splices of two inputs; every single bit of short lossless streams flipped; sparse MP4 giants (64-bit sizes near 2^63 and 2^64, until-EOF boxes, huge skips); the largest declarable lossless image (16384x16384) with zero-bit codes. Configurations: random max_metadata_size <= 1 GiB and cumulative sizes. Each case runs under catch_unwind with overflow checks and debug assertions on, on seek-based and strict readers, MP4 also through the async entry point polled once (the sync wrapper's assumption), with a watchdog thread that reports a hang after 20 s; the Lean model must return the same outcome and never its own panic / out-of-fuel value. non-trivial = every mutated case; distinct = distinct inputs",
+    "trivial_tags": ["base"],
+    "shards": {"quick": 8, "thorough": 16},
+    "exhaustive": {"quick": True, "thorough": True},
+    "explanation": "exhaustive = all truncation points of every base input, all single-bit flips of the short lossless streams",
+    "trusted_base": MP4_TRUSTED + ["the WebP container and lossless models (validated per case)", "catch_unwind + the harness watchdog thread observe panics and hangs; aborts (allocation failure, stack overflow) would end the harness process, which the check reports as a broken run"],
+    "assumptions": COMMON_ASSUME + ["memory safety of unsafe code in dependencies, stack depth and allocation-failure aborts are outside the model and are observed only through the process surviving the whole case stream", "bounded time is judged as: no case above 10 s, no hang above 20 s (largest observed: the 16384x16384 zero-bit image)"],
+}
+
 NOT_APPLICABLE = {}
 
 MANIFEST_TEXT = {
+    "C09": {
+        "text": "Termination by construction: every function of the Lean model is total (structural recursion or explicit fuel; no partial/unsafe outside the protocol driver) and the driver treats a model 'out-of-fuel' or 'panic' value as a disagreement. Lean theorems discharge panic sites locally: the chunk-offset rewrite never panics for any table, width and displacement (C09_displace_no_panic); the u32 sum of chunk counts cannot overflow when the tables fit a payload of at most 2^30 bytes (C09_chunk_count_no_overflow); 'skip_box + encoded_len' cannot overflow for explicitly sized boxes (C09_sized_box_add); prefix-code decoding on a complete tree never reaches the empty-node panic (C18_decode_no_panic). The whole-run claim is evaluated on the real crates: exhaustive truncation, bit/byte/field mutation, splices and sparse giants under catch_unwind + watchdog with overflow checks and debug assertions, both sanitizers, sync and async entry points; the model must reproduce every outcome.",
+        "note": "Partial: a whole-program 'the model never returns panic' theorem (a Hoare-style invariant over the scan loop) is not yet proved; it is enforced per generated case. Aborts and stack exhaustion are observable only as a dead harness process. Trusted: see evidence.",
+        "technique": "Lean 4 totality by construction + proofs of local panic-freedom lemmas; exhaustive truncation / mutation differential check under catch_unwind and a watchdog",
+    },
     "C10": {
         "text": "Lean theorems: every read request the MP4 sanitizer program can issue, on any input, is for at most max(max_metadata_size, 1024) bytes, and a declared payload above the limit fails with InvalidInput before any I/O (C10_request_bound, C10_limit_before_alloc); after the header of any box other than ftyp/moov the iteration contains no read at all - only position/length queries and one skip (C10_media_not_read, a structural fact about the program); the outcome of any program on the ideal cursor depends only on the stream length and the bytes in the ranges it reads (C10_noninterference); through BufReader(cap), for every underlying reader, program and input, bytes delivered <= bytes returned by completed reads + cap x completed skips + cap at every point of the run (C10_physical_reads, an invariant proved per operation and lifted over I/O programs); the planned padding never exceeds the metadata, so the result is at most twice the re-encoded boxes (C10_pad_bounded). Correspondence and measurement on the real crates: metering Read+Skip and counting allocator over sparse multi-GiB layouts and adversarial size fields; exact agreement of read ranges with the model; webpsan peak heap against a constant for declared images up to 16384x16384 and chunks up to 2^32-30 bytes.",
         "note": "Partial: peak heap and byte counts are runtime facts, measured (not proved) on the real code against the stated bounds; the link 'read ranges = headers + ftyp + moov payloads' is checked per case against an independent box walker; webpsan's constant-memory claim is measured only. The check found F6 (padding of up to 4 GiB regardless of the limit), repaired in /repo (26a84ae). Trusted: see evidence.",
